@@ -203,7 +203,73 @@ def scen_on_ready_map():
     return out
 
 
-SCEN = {'pool.Pool.join': scen_join, 'pool.Pool.close': scen_close, 'pool.TaskHandler.tell_others': scen_tell,
+def scen_drain():
+    """finish_at_shutdown on a real ResultHandler: scripted poll / tick / clock"""
+    out = []
+    for state, script, workers_gone_after, clock_step in (
+            (pool.CLOSE, ['task', None, 'idle', 'task', 'task'], None, 1.0),        # drained by results
+            (pool.CLOSE, ['idle'] * 12, 3, 1.0),                                     # all workers gone: 5 s of grace
+            (pool.CLOSE, ['idle'] * 40, 3, 0.2),                                     # ... measured on the clock, not in rounds
+            (pool.TERMINATE, ['task'], None, 1.0),                                   # told to stop
+            (pool.CLOSE, ['task', 'eof'], None, 1.0),                                # connection lost
+            (pool.RUN, ['task', 'task', 'task'], None, 1.0)):                        # (body() left its loop on CoroStop)
+        clock = [100.0]
+        real_mono = pool.monotonic
+        pool.monotonic = lambda: clock[0]
+        try:
+            cache = {k: object() for k in range(3)}
+            rh = pool.ResultHandler.__new__(pool.ResultHandler)
+            log = {'dispatched': [], 'ticks': [], 'polls': 0, 'checks': 0, 'first_gone': None}
+            pending = list(script)
+
+            def poll(timeout):
+                log['polls'] += 1
+                clock[0] += clock_step
+                if not pending:
+                    return False, None
+                x = pending.pop(0)
+                if x == 'eof':
+                    raise EOFError()
+                if x == 'idle':
+                    return False, None
+                if x is None:
+                    return True, None
+                return True, ('msg', log['polls'])
+
+            def on_state_change(task):
+                log['dispatched'].append(task)
+                if cache:
+                    cache.pop(min(cache))          # one job gets its result
+
+            def tick(shutdown=False):
+                log['ticks'].append(shutdown)
+                if workers_gone_after is not None and len(log['ticks']) >= workers_gone_after:
+                    if log['first_gone'] is None:
+                        log['first_gone'] = clock[0]
+                    raise pool.WorkersJoined()
+            rh.get, rh.outqueue, rh.cache, rh.poll = (lambda: None), object(), cache, poll
+            rh.join_exited_workers, rh.check_timeouts, rh.on_state_change = tick, (lambda: log.__setitem__('checks', log['checks'] + 1)), on_state_change
+            rh._state = state
+            rh.finish_at_shutdown()
+            what = 'state %s, messages %r, workers gone after tick %r' % (state, script, workers_gone_after)
+            reads = [x for x in script[:log['polls']] if x == 'task']
+            if len(log['dispatched']) != len(reads):
+                out.append('%s: %d messages read, %d dispatched' % (what, len(reads), len(log['dispatched'])))
+            if not all(log['ticks']):
+                out.append('%s: the supervision tick was not told that the pool is shutting down' % what)
+            if log['checks'] != log['polls']:
+                out.append('%s: %d rounds, %d time-limit checks' % (what, log['polls'], log['checks']))
+            gave_up = log['first_gone'] is not None and clock[0] - log['first_gone'] > 5.0
+            eof = 'eof' in script[:log['polls']]
+            if cache and state != pool.TERMINATE and not eof and not gave_up:
+                out.append('%s: the result handler stopped draining with %d unresolved jobs in the cache (clock %.1f, all '
+                           'workers gone at %r)' % (what, len(cache), clock[0], log['first_gone']))
+        finally:
+            pool.monotonic = real_mono
+    return out
+
+
+SCEN = {'pool.ResultHandler.finish_at_shutdown': scen_drain, 'pool.Pool.join': scen_join, 'pool.Pool.close': scen_close, 'pool.TaskHandler.tell_others': scen_tell,
         'pool.Worker._ensure_messages_consumed': scen_consumed}
 
 
